@@ -81,16 +81,35 @@ fn match_path_segments(segments: &[&str], old_segments: &[PathSegment]) -> Optio
     segments_iter.next().is_none().then_some(optionals)
 }
 
+/// Remove the base path from the start of a path, whatever the slashes around them (`"foo"`, `"/foo"`, `"foo/"`, `"/foo/"`),
+/// matching whole segments only.
+fn strip_base_path<'a>(path: &'a str, base_path: &str) -> Option<&'a str> {
+    let mut path = path.trim_start_matches('/');
+    for base_segment in base_path.split('/').filter(|s| !s.is_empty()) {
+        let (segment, rest) = path.split_once('/').unwrap_or((path, ""));
+        if segment != base_segment {
+            return None;
+        }
+        path = rest.trim_start_matches('/');
+    }
+    Some(path)
+}
+
+/// Split a path into its first segment and what follows.
+fn split_first_segment(path: &str) -> (&str, &str) {
+    path.trim_start_matches('/')
+        .split_once('/')
+        .unwrap_or((path.trim_start_matches('/'), ""))
+}
+
 fn get_locale_from_path<L: Locale>(path: &str, base_path: &str) -> Option<L> {
-    let base_path = base_path.trim_start_matches('/');
-    let stripped_path = path
-        .trim_start_matches('/')
-        .strip_prefix(base_path)?
-        .trim_start_matches('/');
+    let stripped_path = strip_base_path(path, base_path)?;
+    // the whole segment must be the locale, "/english" is not the locale "en".
+    let (first_segment, _) = split_first_segment(stripped_path);
     L::get_all()
         .iter()
         .copied()
-        .find(|l| stripped_path.starts_with(l.as_str()))
+        .find(|l| first_segment == l.as_str())
 }
 
 fn construct_path_segments<'b, 'p: 'b>(
@@ -174,12 +193,13 @@ fn get_new_path<L: Locale>(
         if new_locale != L::default() {
             path_builder.push(new_locale.as_str());
         }
-        if let Some(path_rest) = path_name.strip_prefix(base_path) {
+        if let Some(path_rest) = strip_base_path(path_name, base_path) {
             let path_rest = match locale {
                 None => path_rest,
                 Some(l) => {
-                    if let Some(path_rest) = path_rest.strip_prefix(l.as_str()) {
-                        path_rest
+                    let (first_segment, after) = split_first_segment(path_rest);
+                    if first_segment == l.as_str() {
+                        after
                     } else {
                         path_rest // Should happen only if l == L::default()
                     }
